@@ -1,4 +1,8 @@
 import FFVerif.Props.C11
+import FFVerif.Props.C07
+import FFVerif.Pins.pinGetFFDerivative
+import FFVerif.Pins.pinGradControlMatrix
+import FFVerif.Pins.pinInfidelityDerivative
 #print axioms FFVerif.C11.liouvilleA_matrix_element
 #print axioms FFVerif.C11.liouvilleA_exact
 #print axioms FFVerif.C11.liouvilleA_masked_error
@@ -29,3 +33,9 @@ import FFVerif.Props.C11
 #print axioms FFVerif.C11.sensitivity_real
 #print axioms FFVerif.C11.gradient_source_shape
 #print axioms FFVerif.C11.gradient_einsum_shape
+#print axioms FFVerif.C07.cleanup_freq
+#print axioms FFVerif.C07.deriv_spec
+#print axioms FFVerif.C07.served_value_is_fresh
+#print axioms FFVerif.Pins.pinGetFFDerivative
+#print axioms FFVerif.Pins.pinGradControlMatrix
+#print axioms FFVerif.Pins.pinInfidelityDerivative
